@@ -300,6 +300,7 @@ fn syn_err_spans(e: &RuleSyntaxError) -> (String, Vec<(usize, usize)>) {
         E::OutsideBrackets(_, _, p) | E::NestedBrackets(_, _, p) | E::WrongModTone(_, _, p) | E::EmptyOutput(_, _, p) | E::EmptyInput(_, _, p) |
         E::EmptyEnv(_, _, p) => vec![(*p, *p + 1)],
         E::TooManyWordBoundaries(p) | E::StuffBeforeWordBound(p) | E::StuffAfterWordBound(p) => vec![(p.start, p.start + 1)],
+        E::NumberTooBig(p) => vec![(p.start, p.end)],
         E::InsertDelete(_, _, a, b) | E::InsertMetath(_, _, a, b) => vec![(*a, *a + 1), (*b, *b + 1)],
         E::UnexpectedDiacritic(a, b) | E::DiacriticDoesNotMeetPreReqsFeat(a, b, ..) | E::DiacriticDoesNotMeetPreReqsNode(a, b, ..) => vec![(a.start, a.end), (b.start, b.end)],
         E::UnbalancedRuleEnv(items) => match (items.first(), items.last()) { (Some(f), Some(l)) => vec![(f.position.start, l.position.end)], _ => vec![] },
